@@ -231,8 +231,10 @@ class Gen:
     def leaf(self):
         rng = self.rng
         self.tag += 1
-        rs = rand_rs(rng, move=self.move)
         x = rng.random()
+        # the move forms `N>&M-` only on external commands: bash leaves M closed *in the shell* after a builtin or
+        # compound command that moved it (its undo list does not cover M), which is not what the property asks for
+        rs = rand_rs(rng, move=self.move and x < 0.55)
         if x < 0.55:
             return ("P", self.tag, rs, rng.randint(0, len(rs)))
         if x < 0.8:
@@ -245,12 +247,16 @@ class Gen:
             return self.leaf()
         body = [self.cmd(depth - 1) for _ in range(rng.choice([1, 1, 2, 3]))]
         x = rng.random()
+        # random compound commands never close descriptor 0, 1 or 2 around a body that opens files: with one of them
+        # closed, open() hands out that number inside bash and its save/restore bookkeeping shows through (the
+        # exhaustive part does cover `{ …; } N>&-` with bodies that open nothing)
+        rand_rs = lambda *a, **k: [r for r in globals()["rand_rs"](*a, **k) if not closes_std(r)]
         if x < 0.45:
-            return ("G", rng.randint(0, 3), body, rand_rs(rng, move=self.move))
+            return ("G", rng.randint(0, 3), body, rand_rs(rng))
         if x < 0.7:
-            return ("U", body, rand_rs(rng, move=self.move))
+            return ("U", body, rand_rs(rng))
         self.fn += 1
-        return ("C", self.fn, body, rand_rs(rng, 2, self.move) if rng.random() < 0.5 else [], rand_rs(rng, 3, self.move))
+        return ("C", self.fn, body, rand_rs(rng, 2) if rng.random() < 0.5 else [], rand_rs(rng, 3))
 
     def script(self):
         rng = self.rng
@@ -364,16 +370,23 @@ def term_line(dash, tagword, rng_tabs=0):
     return ("\t" * rng_tabs if dash else "") + end_tag(tagword)
 
 
-def bash_heredoc_ok(tagword, lines):
-    """outside the guard: unquoted delimiter and a body line ending in an odd number of backslashes
-    (bash joins it with the next line before looking for the delimiter), or `$`-forms the small
-    expansion model does not cover"""
+def continued(tagword, lines):
+    """unquoted delimiter and some body line ends in an unescaped backslash: the next line is joined to it"""
     if any(c in tagword for c in "\\'\""):
-        return True, None
-    for l in lines:
-        k = len(l) - len(l.rstrip("\\"))
-        if k % 2 == 1:
-            return False, "heredoc_backslash_newline_kept"
+        return False
+    return any((len(l) - len(l.rstrip("\\"))) % 2 == 1 for l in lines)
+
+
+def bash_heredoc_ok(tagword, lines, dash=False):
+    """bash removes backslash-newline while *reading* the document — before it strips the tabs of `<<-` and before
+    it looks for `$name` — brush when expanding it.  Two visible consequences: a continuation right after `$` or
+    inside a `$name` splits the name in brush (`$x\<newline>y` is `$xy` for bash), and under `<<-` the tabs that
+    follow a line holding nothing but the continuation backslash are kept by brush."""
+    if continued(tagword, lines):
+        if any(re.search(r"\$[A-Za-z_0-9]*\\$", l) for l in lines):
+            return False, HD_CLAUSES[0]
+        if dash and any(l.lstrip("\t") == "\\" for l in lines):
+            return False, HD_CLAUSES[0]
     return True, None
 
 
@@ -472,27 +485,20 @@ def features(nc, cmds):
     return fs
 
 
-CLAUSES = ["move_fd_form_closes_target", "noclobber_ignored_by_out_and_err_redirect", "exec_in_redirected_command_persists_enclosing",
-           "compound_redirect_failure_aborts_line", "std_slot_of_external_inherits_process_fd",
-           "redirect_failure_with_unwritable_stderr_aborts_line", "function_definition_redirect_error_goes_to_callers_stderr"]
+CLAUSES = ["exec_in_redirected_command_persists_enclosing", "redirect_failure_with_unwritable_stderr_aborts_line",
+           "function_definition_redirect_error_goes_to_callers_stderr", "closed_std_fd_inherited_by_external"]
 
 
 def clause_for(nc, cmds, notes):
-    fs = features(nc, cmds)
-    if "move" in fs:
-        return CLAUSES[0]
-    if "nc_outerr" in fs:
-        return CLAUSES[1]
+    """labels emitted by the model say which modelled departure from the reference semantics occurred"""
     if "3" in notes:
-        return CLAUSES[2]
-    if "2" in notes:
-        return CLAUSES[3]
+        return CLAUSES[0]
     if "4" in notes:
-        return CLAUSES[5]
+        return CLAUSES[1]
     if "5" in notes:
-        return CLAUSES[6]
+        return CLAUSES[2]
     if "1" in notes:
-        return CLAUSES[4]
+        return CLAUSES[3]
     return None
 
 
@@ -547,7 +553,7 @@ def decide_fd(ctx, cases):
 
 # -- here-documents -------------------------------------------------------------------------------
 
-HD_CLAUSES = ["heredoc_backslash_newline_kept", "heredoc_body_quote_inside_command_substitution"]
+HD_CLAUSES = ["heredoc_continuation_joined_at_expansion_time", "heredoc_body_quote_inside_command_substitution"]
 XVAL = "V a"
 
 
@@ -602,7 +608,7 @@ def decide_heredoc(ctx, cases):
                 bad = "model: unterminated; brush tokenizer: " + t[:80]
         else:
             body, rest = unesc(f[2]), unesc(f[3])
-            bodies.append((f[1] == "1", body))
+            bodies.append((f[1] == "1", body, rest))
             if t.startswith("ok"):
                 tt = t.split(" ")[1:]
                 want = ["wcat", "o<<-" if dash else "o<<", "w" + esc(tw), "w" + esc(body), "w" + esc(end_tag(tw))]
@@ -619,7 +625,7 @@ def decide_heredoc(ctx, cases):
         # the property at this level: the intended document (lines none of which is the delimiter after tab stripping) is the body
         intended = None
         strip = (lambda l: l.lstrip("\t")) if dash else (lambda l: l)
-        if all(strip(l) != end_tag(tw) for l in lines):
+        if all(strip(l) != end_tag(tw) for l in lines) and not continued(tw, lines):
             intended = "".join(strip(l) + "\n" for l in lines)
         if bad is None and intended is not None and f[0] == "ok" and unesc(f[2]) != intended:
             bad = "body is not byte-exact: got %r, want %r" % (unesc(f[2]), intended)
@@ -635,6 +641,8 @@ def decide_heredoc(ctx, cases):
         strip = (lambda l: l.lstrip("\t")) if dash else (lambda l: l)
         if not all(strip(l) != end_tag(tw) for l in lines):
             continue            # the intended document ends early: what follows is arbitrary shell text
+        if bd[2] != ("echo R 'q r'\n" if layout != "noeol" else ""):
+            continue            # a continued last line swallowed the delimiter line: the script would fall apart
         if bd[0] and not expansion_in_model_domain(lines):
             continue
         if "$x" == tw:
@@ -642,7 +650,7 @@ def decide_heredoc(ctx, cases):
         scripts.append(heredoc_script(dash, tw, lines, layout, tabs))
         meta.append((dash, tw, lines, layout))
         ereqs.append(("C10 E %s %s" % (esc(bd[1]), esc(XVAL))) if bd[0] else None)
-        expect.append(bd)
+        expect.append(bd[:2])
     eouts = lib.run_drv_parallel([e for e in ereqs if e is not None], workers=W)
     it = iter(eouts)
     contents = [unesc(next(it)) if e is not None else bd[1] for e, bd in zip(ereqs, expect)]
@@ -659,7 +667,7 @@ def decide_heredoc(ctx, cases):
         else:
             want = content + tail
         case = {"script": script, "dash": dash, "tag": tw, "lines": lines, "layout": layout}
-        okbash, clause = bash_heredoc_ok(tw, lines)
+        okbash, clause = bash_heredoc_ok(tw, lines, dash)
         if oo != (want if okbash else oo) :
             ctx.oracle_mismatch += 1
         prop_fails = (bo, brc) != (oo, orc)
